@@ -103,6 +103,10 @@ pub trait Val: Same + Clone + PartialEq + 'static {
     fn width(&self) -> usize {
         0
     }
+    /// An empty string / vector (useful as a letter of exhaustive alphabets).
+    fn is_empty_container(&self) -> bool {
+        false
+    }
 }
 
 macro_rules! int_val {
@@ -448,6 +452,9 @@ impl Val for String {
     fn scale(&self, k: usize) -> Self {
         self.repeat(k)
     }
+    fn is_empty_container(&self) -> bool {
+        self.is_empty()
+    }
 }
 
 // ---------------------------------------------------------------- containers
@@ -522,6 +529,9 @@ impl<T: Val> Val for Vec<T> {
     }
     fn width(&self) -> usize {
         self.len()
+    }
+    fn is_empty_container(&self) -> bool {
+        self.is_empty()
     }
 }
 
